@@ -132,6 +132,7 @@ Lemma append_commit_fault w :
   exists w' off buf,
     append_commit w FNone = (Some w', [WWrite off buf; WSync]) /\
     append_commit w FWrite = (None, []) /\
+    append_commit w FWriteShort = (None, [WWrite off (firstn (length buf / 2) buf)]) /\
     append_commit w FSync = (None, [WWrite off buf; WSync]).
 Proof. unfold append_commit. eexists; eexists; eexists. repeat split. Qed.
 
@@ -141,6 +142,7 @@ Definition faulted (f : wfault) (w : wstate) (x : wres * wstate * list waction) 
   let '(r, w', acts) := x in
   match r, acts, f with
   | WOk, _ :: _, FWrite => (WErrIO, w, [])
+  | WOk, WWrite off buf :: _, FWriteShort => (WErrIO, w, [WWrite off (firstn (length buf / 2) buf)])
   | WOk, _ :: _, FSync => (WErrIO, w, acts)
   | _, _, _ => x
   end.
@@ -160,6 +162,41 @@ Proof.
   unfold force_seal. destruct (0 <? w_index_start w); [destruct f; reflexivity|].
   destruct (append_index w) as [w1|]; [|destruct f; reflexivity].
   destruct f; reflexivity.
+Qed.
+
+(* a SHORT write (FWriteShort) has no counterpart among L2's faults (wfault_of
+   yields FWrite / FSync only: at L2 a failed AWrite has no effect on the abstract
+   file).  Result and writer are those of the write that fails outright, so the
+   L2 correspondence of FWrite (append_sim_gen / force_seal_sim_gen with fault
+   count 0) holds of it verbatim; only the bytes differ: the first half of the
+   buffer is in the file, behind the image -- stale bytes that readers never
+   look at (read_sim_tail, read_sim_sealed) and that recovery discards (Seg/FailFacts.v). *)
+Lemma append_short_as_write w es :
+  fst (append w es FWriteShort) = fst (append w es FWrite) /\
+  (snd (append w es FWriteShort) = [] \/
+   exists off buf, snd (append w es FNone) = [WWrite off buf; WSync] /\
+                   snd (append w es FWriteShort) = [WWrite off (firstn (length buf / 2) buf)]).
+Proof.
+  rewrite (append_faulted w es FWriteShort), (append_faulted w es FWrite).
+  unfold append.
+  destruct es as [|e0 r]; [cbn; auto|].
+  destruct (0 <? w_index_start w); [cbn; auto|].
+  destruct (too_big (e0 :: r)); [cbn; auto|].
+  destruct (append_entries w (e0 :: r)) as [w1|]; [|cbn; auto].
+  destruct (if needs_seal w1 then append_index w1 else Some w1) as [w2|]; [|cbn; auto].
+  cbn [append_commit faulted fst snd]. split; [reflexivity|]. right. eexists. eexists. split; reflexivity.
+Qed.
+
+Lemma force_seal_short_as_write w :
+  fst (force_seal w FWriteShort) = fst (force_seal w FWrite) /\
+  (snd (force_seal w FWriteShort) = [] \/
+   exists off buf, snd (force_seal w FNone) = [WWrite off buf; WSync] /\
+                   snd (force_seal w FWriteShort) = [WWrite off (firstn (length buf / 2) buf)]).
+Proof.
+  rewrite (force_seal_faulted w FWriteShort), (force_seal_faulted w FWrite). unfold force_seal.
+  destruct (0 <? w_index_start w); [cbn; auto|].
+  destruct (append_index w) as [w1|]; [|cbn; auto].
+  cbn [append_commit faulted fst snd]. split; [reflexivity|]. right. eexists. eexists. split; reflexivity.
 Qed.
 
 (* ---------------- rep_w ---------------- *)
